@@ -61,6 +61,11 @@ type sys struct {
 	// copy of its records and receives all later ones: it must survive.
 	sweepUsed bool
 	archive   bytes.Buffer
+	// "grow" configurations: the pool starts with 203.0.113.2 only and is extended WHILE allocations exist
+	// (AddPublic(1): a numerically lower address, AddPublic(3): a higher one, AddPublic(2): the address it
+	// already has, e.g. an overlapping range added by the operator); each at most once per history.
+	pubs  map[string]bool
+	grown map[int]bool
 }
 
 func subIP(i int) net.IP { return net.IPv4(100, 64, 0, byte(10+i)) }
@@ -90,7 +95,11 @@ func newSys(c cfg) *sys {
 		lg.VerifSetWriter(buf)
 	}
 	m.SetLogger(lg)
-	if strings.Contains(c.name, "range-api") {
+	if strings.Contains(c.name, "grow") {
+		if err := m.AddPublicIP(net.IPv4(203, 0, 113, 2)); err != nil {
+			panic(err)
+		}
+	} else if strings.Contains(c.name, "range-api") {
 		// the pool is configured through the range API (one call for all public addresses)
 		if err := m.AddPublicIPRange(net.IPv4(203, 0, 113, 1), net.IPv4(203, 0, 113, byte(c.publics))); err != nil {
 			panic(err)
@@ -103,6 +112,9 @@ func newSys(c cfg) *sys {
 		}
 	}
 	st := &sys{c: c, m: m, lg: lg, buf: buf, ref: map[int]block{}, logDir: logDir}
+	if strings.Contains(c.name, "grow") {
+		st.pubs, st.grown = map[string]bool{"203.0.113.2": true}, map[int]bool{}
+	}
 	if c.mapCap > 0 {
 		// the value size is what the control plane marshals (checked against the C declaration by C06)
 		km, err := cebpf.NewMap(&cebpf.MapSpec{Type: cebpf.Hash, KeySize: 4, ValueSize: uint32(binary.Size(nat.SubscriberNAT{})), MaxEntries: uint32(c.mapCap)})
@@ -118,6 +130,13 @@ func (s *sys) Ops() []string {
 	var ops []string
 	for i := 0; i < s.c.subs; i++ {
 		ops = append(ops, fmt.Sprintf("Allocate(%d)", i), fmt.Sprintf("Deallocate(%d)", i))
+	}
+	if s.pubs != nil {
+		for _, x := range []int{1, 3, 2} {
+			if !s.grown[x] {
+				ops = append(ops, fmt.Sprintf("AddPublic(%d)", x))
+			}
+		}
 	}
 	if s.logDir != "" && !s.sweepUsed {
 		ops = append(ops, "Quiet+Sweep")
@@ -151,6 +170,16 @@ func (s *sys) Apply(op string) string {
 		os.Chtimes(filepath.Join(s.logDir, "nat.log"), old, old)
 		s.lg.VerifCleanOldLogs()
 		return "swept"
+	}
+	if strings.HasPrefix(op, "AddPublic(") {
+		fmt.Sscanf(op, "AddPublic(%d)", &i)
+		s.grown[i] = true
+		ip := net.IPv4(203, 0, 113, byte(i))
+		if err := s.m.AddPublicIP(ip); err != nil {
+			return "err"
+		}
+		s.pubs[ip.String()] = true
+		return "ok"
 	}
 	fault := strings.HasSuffix(op, "@nodir")
 	if fault {
@@ -208,7 +237,7 @@ func (s *sys) Apply(op string) string {
 
 func (s *sys) Fingerprint() string {
 	return deepdump.Dump(s.m, deepdump.Options{IgnoreTimes: true, SkipTypes: map[string]bool{"nat.Logger": true, "nat.ManagerConfig": true}}) +
-		fmt.Sprint(s.buf.Len() > 0) + s.logFiles()
+		fmt.Sprint(s.buf.Len() > 0, s.grown) + s.logFiles()
 }
 
 // logFiles: the observable state of a file-backed log (the logger object itself is not part of the fingerprint):
@@ -235,7 +264,11 @@ func (s *sys) Check() []explore.Viol {
 	for _, i := range ids {
 		b := s.ref[i]
 		// N2: a configured public address
-		if ip := net.ParseIP(b.pub).To4(); ip == nil || ip[0] != 203 || ip[1] != 0 || ip[2] != 113 || int(ip[3]) < 1 || int(ip[3]) > s.c.publics {
+		if s.pubs != nil {
+			if !s.pubs[b.pub] {
+				s.v("range", "AllocateNAT", "holder %d block %v is on a public address that was not configured (%v)", i, b, s.pubs)
+			}
+		} else if ip := net.ParseIP(b.pub).To4(); ip == nil || ip[0] != 203 || ip[1] != 0 || ip[2] != 113 || int(ip[3]) < 1 || int(ip[3]) > s.c.publics {
 			s.v("range", "AllocateNAT", "holder %d block %v is on a public address that was not configured (203.0.113.1..%d)", i, b, s.c.publics)
 		}
 		if b.start < s.c.start || b.end > s.c.end || b.end < b.start {
@@ -415,6 +448,11 @@ func configs(thorough bool) []cfg {
 	out = append(out,
 		cfg{"nondividing-2ip range-api", 1000, 1009, 3, 2, subs, true, 0, 0},
 		cfg{"singleblock-3ip range-api", 1024, 1031, 8, 3, subs, false, 0, 0},
+	)
+	// the pool is extended while allocations exist (lower / higher / already present address)
+	out = append(out,
+		cfg{"singleblock-grow", 1024, 1031, 8, 1, subs, true, 0, 0},
+		cfg{"nondividing-grow", 1000, 1009, 3, 1, subs, false, 0, 0},
 	)
 	// file-backed logger with rotation: at most one rotation within the explored depth (700 bytes), and several (250 bytes)
 	out = append(out,
